@@ -273,6 +273,11 @@ func (r *Run) Finish() {
 	cov["evaluations"] = ev
 	cov["distinct_nontrivial"] = len(r.distinct)
 	cov["rule"] = r.Rule
+	if len(r.samples) == 0 && r.Replay == "" {
+		// the evidence schema requires at least one actual explored case, written out
+		fmt.Fprintf(os.Stderr, "HARNESS-ERROR: %s: no r.Sample(...) recorded; every check must store a few real explored cases\n", r.ID)
+		os.Exit(2)
+	}
 	cov["samples"] = r.samples
 	if s := r.States.Load(); s > 0 {
 		cov["states"] = s
